@@ -680,4 +680,216 @@ Section RiccatiEq.
       + rewrite app_length. lia.
       + cbn [Nat.mul]. rewrite <- Lnew. apply seg_0_app.
   Qed.
+
+  (* ---- the loops and the functions *)
+  Fixpoint all_ops (i0 : nat) (sts : list (lq_stage R)) : Prop :=
+    match sts with [] => True | st :: sts' => ops_match i0 st /\ all_ops (S i0) sts' end.
+  (* what factor_masked leaves in the per-stage stores for the stages i0, i0+1, .. *)
+  Fixpoint stored (i0 : nat) (sts : list (lq_stage R)) (gs : list (gain R)) (gK : list (list (list R))) (e : list (list R)) : Prop :=
+    match sts, gs with
+    | [], [] => True
+    | st :: sts', g :: gs' => nth i0 gK [] = mT (length (sJ st)) (gKT g) /\ nth i0 e [] = ge g /\ wfm nx (length (sJ st)) (gKT g) /\
+                              stored (S i0) sts' gs' gK e
+    | _, _ => False
+    end.
+
+  Lemma stored_frame : forall sts gs k gK e i x z, i < k -> stored k sts gs gK e -> stored k sts gs (lupd i x gK) (lupd i z e).
+  Proof.
+    induction sts as [|st sts IH]; intros [|g gs] k gK e i x z Hi Hs; cbn in *; auto.
+    destruct Hs as (H1 & H2 & H3 & H4). rewrite !nth_lupd_other by lia. split; [exact H1|]. split; [exact H2|]. split; [exact H3|]. apply IH; auto.
+  Qed.
+  Lemma stored_frame_e : forall sts gs k gK e i z, i < k -> stored k sts gs gK e -> stored k sts gs gK (lupd i z e).
+  Proof.
+    induction sts as [|st sts IH]; intros [|g gs] k gK e i z Hi Hs; cbn in *; auto.
+    destruct Hs as (H1 & H2 & H3 & H4). rewrite !nth_lupd_other by lia. split; [exact H1|]. split; [exact H2|]. split; [exact H3|]. apply IH; auto.
+  Qed.
+
+  Notation fstep chol := (fun '(s_P_in, s_gain_K_in, s_e_in, s_s_in, s_c_in, s_y_in, s_t_in, s_PA_in) i_i =>
+      g_factor_masked_for1_step F L lsolve d nx nu chol s_P_in s_gain_K_in s_e_in s_s_in s_c_in s_y_in s_t_in s_PA_in i_i).
+
+  (* stages i0 .. i0+n-1 with i0 >= 1 (every one of them updates P and s): the backward recursion Ocp.factor_all *)
+  Lemma g_factor_masked_loop_eq chol : forall sts i0 QN qN gK e c y t PA,
+    1 <= i0 -> all_ops i0 sts -> Forall (wf_stage nx nu) sts -> wfm nx nx QN -> selfadj nx QN -> length qN = nx ->
+    solves_all lsolve nx sts QN qN -> i0 + length sts <= length gK -> i0 + length sts <= length e ->
+    exists gK' e' c' y' t' PA',
+      fold_left (fstep chol) (rev (seq i0 (length sts))) (QN, gK, e, qN, c, y, t, PA)
+      = (snd (fst (factor_all lsolve nx sts QN qN)), gK', e', snd (factor_all lsolve nx sts QN qN), c', y', t', PA') /\
+      stored i0 sts (fst (fst (factor_all lsolve nx sts QN qN))) gK' e' /\ length gK' = length gK /\ length e' = length e.
+  Proof.
+    induction sts as [|st sts IH]; intros i0 QN qN gK e c y t PA Hi Hops Hw HQ HQs Hq Hsol LgK Le.
+    - exists gK, e, c, y, t, PA. cbn. auto.
+    - destruct Hops as [Hop Hops]. pose proof (Forall_inv Hw) as Hst. pose proof (Forall_inv_tail Hw) as Hw'.
+      destruct Hsol as [Hsol' Hsol]. cbn [length] in *.
+      destruct (IH (S i0) QN qN gK e c y t PA) as (gK1 & e1 & c1 & y1 & t1 & PA1 & E & Hst1 & LgK1 & Le1); auto; try lia.
+      destruct (factor_solve_kkt lsolve nx nu sts QN qN Hw' HQ HQs Hq Hsol') as (HP & _ & Hs & _).
+      cbn [seq rev]. rewrite fold_left_app, E. cbn [fold_left].
+      rewrite (g_factor_masked_for1_step_eq i0 st) by (auto; lia).
+      replace (0 <? i0) with true by (symmetry; apply Nat.ltb_lt; lia).
+      cbn [factor_all]. destruct (factor_all lsolve nx sts QN qN) as [[gs P] s]. cbn [fst snd] in *.
+      do 6 eexists. split; [reflexivity|]. cbn [stored gKT ge].
+      rewrite !nth_lupd_same by lia. split; [|split; [rewrite lupd_length; exact LgK1 | rewrite lupd_length; exact Le1]].
+      split; [reflexivity|]. split; [reflexivity|]. split; [apply (wKT lsolve nx nu st P s Hst HP Hsol)|]. apply stored_frame; auto.
+  Qed.
+
+  Lemma madd_mzero_l r c (M : list (list R)) : wfm r c M -> madd (mzero r c) M = M.
+  Proof.
+    intros [<- W]. unfold madd, mzero. induction M as [|row M IH]; cbn; [reflexivity|]. inversion W; subst. f_equal; auto.
+    clear. induction row as [|a row IH]; cbn; [reflexivity|]. f_equal; [numR; ring | exact IH].
+  Qed.
+
+  (* the function = Ocp.factor_masked: P and s are those of stage 1 (`if (i > 0)`), the stores hold every stage's gain and feed-forward *)
+  Theorem g_factor_masked_eq chol sts QN qN P gK e s c y t PA :
+    all_ops 0 sts -> (forall M, lf_Q L (length sts) M = madd M QN) -> lf_q L (length sts) = qN ->
+    Forall (wf_stage nx nu) sts -> wfm nx nx QN -> selfadj nx QN -> length qN = nx -> solves_all lsolve nx sts QN qN ->
+    length sts <= length gK -> length sts <= length e ->
+    exists gK' e' c' y' t' PA',
+      g_factor_masked F L lsolve d (length sts) nx nu chol P gK e s c y t PA
+      = (snd (fst (factor_masked lsolve nx sts QN qN)), gK', e', snd (factor_masked lsolve nx sts QN qN), c', y', t', PA') /\
+      stored 0 sts (fst (fst (factor_masked lsolve nx sts QN qN))) gK' e' /\ length gK' = length gK /\ length e' = length e.
+  Proof.
+    intros Hops HQN HqN Hw HQ HQs Hq Hsol LgK Le.
+    unfold g_factor_masked. cbv zeta. rewrite HQN, HqN, (madd_mzero_l nx nx QN HQ).
+    destruct sts as [|st sts].
+    - exists gK, e, c, y, t, PA. cbn. auto.
+    - destruct Hops as [Hop Hops]. pose proof (Forall_inv Hw) as Hst. pose proof (Forall_inv_tail Hw) as Hw'.
+      destruct Hsol as [Hsol' Hsol]. cbn [length] in *.
+      destruct (g_factor_masked_loop_eq chol sts 1 QN qN gK e c y t PA) as (gK1 & e1 & c1 & y1 & t1 & PA1 & E & Hst1 & LgK1 & Le1); auto; try lia.
+      destruct (factor_solve_kkt lsolve nx nu sts QN qN Hw' HQ HQs Hq Hsol') as (HP & _ & Hs & _).
+      cbn [seq rev]. rewrite fold_left_app, E. cbn [fold_left].
+      rewrite (g_factor_masked_for1_step_eq 0 st) by (auto; lia).
+      cbn [Nat.ltb Nat.leb factor_masked]. destruct (factor_all lsolve nx sts QN qN) as [[gs P1] s1]. cbn [fst snd] in *.
+      do 6 eexists. split; [reflexivity|]. cbn [stored gKT ge].
+      rewrite !nth_lupd_same by lia. split; [|split; [rewrite lupd_length; exact LgK1 | rewrite lupd_length; exact Le1]].
+      split; [reflexivity|]. split; [reflexivity|]. split; [apply (wKT lsolve nx nu st P1 s1 Hst HP Hsol)|]. apply stored_frame; auto.
+  Qed.
+
+  Notation sstep gK := (fun '(s_Delu_eq_in, s_Delx_in, s_e_in) i_i => g_solve_masked_for1_step F L lsolve d nx nu gK s_Delu_eq_in s_Delx_in s_e_in i_i).
+
+  (* the forward roll-out of solve_masked over the stages i0 .. : Ocp.solve_from *)
+  Lemma g_solve_masked_loop_eq gK : forall sts gs i0 upre upost Δx e δx,
+    all_ops i0 sts -> Forall (wf_stage nx nu) sts -> stored i0 sts gs gK e -> length upre = i0 * nu ->
+    length Δx = 2 * nx -> seg ((i0 mod 2) * nx) nx Δx = δx -> i0 + length sts <= length e ->
+    exists Δx' e',
+      fold_left (sstep gK) (seq i0 (length sts)) (upre ++ concat (map (@sfix R) sts) ++ upost, Δx, e)
+      = (upre ++ concat (solve_from sts gs δx) ++ upost, Δx', e').
+  Proof.
+    induction sts as [|st sts IH]; intros [|g gs] i0 upre upost Δx e δx Hops Hw Hsto Lup LΔx Hδ Le; cbn [stored] in Hsto; try contradiction.
+    - exists Δx, e. reflexivity.
+    - destruct Hops as [Hop Hops]. pose proof (Forall_inv Hw) as Hst. pose proof (Forall_inv_tail Hw) as Hw'.
+      destruct Hsto as (HgK & He & WK & Hsto'). cbn [length] in Le.
+      cbn [length seq fold_left map concat solve_from]. rewrite <- !app_assoc.
+      destruct Hop as (HAB & _ & _ & _ & _ & _ & _ & _ & _ & HJ & _).
+      assert (Hm : solve_match i0 st g gK e)
+        by (unfold solve_match; split; [exact HAB|]; split; [exact HJ|]; split; [exact HgK|]; split; [exact He|]; split; [exact WK| lia]).
+      destruct (g_solve_masked_for1_step_eq i0 st g gK e upre (concat (map (@sfix R) sts) ++ upost) Δx δx Hm Hst Lup LΔx Hδ) as (Δx1 & E & LΔx1 & Hδ1).
+      rewrite E. cbv zeta in *.
+      set (e' := vadd (ge g) (mtv (length (sJ st)) (gKT g) δx)) in *.
+      set (Δu := scatter (sJ st) e' (sfix st)) in *.
+      destruct (IH gs (S i0) (upre ++ Δu) upost Δx1 (lupd i0 e' e) (vadd (mv (sA st) δx) (mv (sB st) Δu))) as (Δx2 & e2 & E2); auto.
+      { apply stored_frame_e; auto. }
+      { rewrite app_length. unfold Δu. rewrite scatter_length. destruct Hst as (_&_&_&_&_&_&_&Lfix&_). rewrite Lfix. lia. }
+      { rewrite lupd_length. lia. }
+      rewrite <- !app_assoc in E2. rewrite E2. exists Δx2, e2. reflexivity.
+  Qed.
+
+  (* the function: Δu_eq enters holding the fixed inputs of every stage and leaves holding the step of Ocp.solve_masked *)
+  Theorem g_solve_masked_eq sts gs gK e Δx :
+    all_ops 0 sts -> Forall (wf_stage nx nu) sts -> stored 0 sts gs gK e -> length Δx = 2 * nx -> length sts <= length e ->
+    exists Δx' e',
+      g_solve_masked F L lsolve d (length sts) nx nu (concat (map (@sfix R) sts)) Δx gK e
+      = (concat (solve_masked nx sts gs), Δx', e').
+  Proof.
+    intros Hops Hw Hsto LΔx Le. unfold g_solve_masked, solve_masked. cbv zeta.
+    destruct (g_solve_masked_loop_eq gK sts gs 0 [] [] (put 0 (vconst nx n0) Δx) e (vconst nx n0)) as (Δx' & e' & E); auto.
+    - rewrite put_length; [exact LΔx | rewrite vconst_length; lia].
+    - cbn [Nat.modulo Nat.divmod fst snd Nat.sub Nat.mul]. apply seg_put_same; [lia | rewrite vconst_length; reflexivity].
+    - cbn [app] in E. rewrite !app_nil_r in E. rewrite E. exists Δx', e'. reflexivity.
+  Qed.
+
+  (* factor_masked followed by solve_masked = Ocp.riccati_step *)
+  Theorem g_riccati_step_eq chol sts QN qN P gK e s c y t PA Δx :
+    all_ops 0 sts -> (forall M, lf_Q L (length sts) M = madd M QN) -> lf_q L (length sts) = qN ->
+    Forall (wf_stage nx nu) sts -> wfm nx nx QN -> selfadj nx QN -> length qN = nx -> solves_all lsolve nx sts QN qN ->
+    length sts <= length gK -> length sts <= length e -> length Δx = 2 * nx ->
+    let '(_, gK', e', _, _, _, _, _) := g_factor_masked F L lsolve d (length sts) nx nu chol P gK e s c y t PA in
+    fst (fst (g_solve_masked F L lsolve d (length sts) nx nu (concat (map (@sfix R) sts)) Δx gK' e'))
+    = concat (riccati_step lsolve nx sts QN qN).
+  Proof.
+    intros Hops HQN HqN Hw HQ HQs Hq Hsol LgK Le LΔx.
+    destruct (g_factor_masked_eq chol sts QN qN P gK e s c y t PA) as (gK' & e' & c' & y' & t' & PA' & E & Hsto & LgK' & Le'); auto.
+    rewrite E.
+    destruct (g_solve_masked_eq sts _ gK' e' Δx Hops Hw Hsto LΔx) as (Δx' & e'' & E2); [lia|].
+    rewrite E2. reflexivity.
+  Qed.
 End RiccatiEq.
+
+(* ================================================================== 5. the theorems of C12 carried over to the generated code *)
+(* layout *)
+Theorem g_layout_is_model (F : ocp_fns R) (L : lqr_fns R) lsolve d t :
+  g_xk_off F L lsolve d t = off_x d t /\ g_uk_off F L lsolve d t = off_u d t /\
+  g_hk_off F L lsolve d t = off_h d t /\ g_hk_len F L lsolve d t = len_h d t /\
+  g_ck_off F L lsolve d t = off_c d t /\ g_ck_len F L lsolve d t = len_c d t /\
+  g_qk_off F L lsolve d t = off_q d t /\ g_rk_off F L lsolve d t = off_r d t /\
+  g_create_len F L lsolve d = total_len d /\ g_create_qr_len F L lsolve d = len_qr d.
+Proof.
+  repeat split; first [apply g_xk_off_eq | apply g_uk_off_eq | apply g_hk_off_eq | apply g_hk_len_eq | apply g_ck_off_eq | apply g_ck_len_eq |
+                       apply g_qk_off_eq | apply g_rk_off_eq | apply g_create_len_eq | apply g_create_qr_len_eq].
+Qed.
+
+(* cost = sum *)
+Theorem g_forward_is_sum (F : ocp_fns R) (L : lqr_fns R) lsolve d Dlb Dub DNlb DNub (y μ x0 : list R) us tail :
+  wf_fwd F d -> length us = dN d -> length x0 = dnx d -> fshape d us tail ->
+  fst (g_forward F L lsolve d (x0 ++ tail) Dlb Dub DNlb DNub μ y)
+  = cost_sum (pf_eval_f F) (pf_eval_h F) (pf_eval_h_N F) (pf_eval_l F) (pf_eval_l_N F) (pf_eval_constr F) (pf_eval_constr_N F)
+             d Dlb Dub DNlb DNub 0 x0 us y μ.
+Proof. intros Hwf LN Lx Hs. rewrite (g_forward_eq F L lsolve d Dlb Dub DNlb DNub y μ Hwf x0 us tail LN Lx Hs). cbn [fst]. apply forward_is_sum. Qed.
+
+(* gradient = derivative: the gradient blocks written by the generated backward pair with every perturbation δu to the first-order
+   change of the cost along the linearised roll-out *)
+Theorem g_backward_gradient_is_derivative (F : ocp_fns R) (L : lqr_fns R) lsolve d Dlb Dub DNlb DNub (y μ storage : list R) Aof Bof Jcof JcN g qr wx wλ wc :
+  wf_bwd F d Dlb Dub DNlb DNub y μ storage Aof Bof Jcof JcN ->
+  length g = dN d * dnu d -> length qr = len_qr d ->
+  length (pf_eval_q_N F (seg (off_x d (dN d)) (dnx d) storage) (seg (off_h d (dN d)) (len_h d (dN d)) storage)) = dnx d ->
+  let ls := map (fun t => lin_of (dnx d) (dnc d) Dlb Dub (stage_of F d y μ storage Aof Bof Jcof t)) (seq 0 (dN d)) in
+  let qN := qN_of (dnx d) (dncN d) DNlb DNub (pf_eval_q_N F (seg (off_x d (dN d)) (dnx d) storage) (seg (off_h d (dN d)) (len_h d (dN d)) storage))
+                  JcN (seg (off_c d (dN d)) (len_c d (dN d)) storage) (seg (dN d * dnc d) (dncN d) y) (seg (dN d * dnc d) (dncN d) μ) in
+  Forall (wf_lin (dnx d) (dnu d)) ls ->
+  forall δus, length δus = dN d -> Forall (fun δu : list R => length δu = dnu d) δus ->
+  exists gs, fst (fst (fst (fst (g_backward F L lsolve d storage g qr Dlb Dub DNlb DNub μ y wx wλ wc)))) = concat gs /\
+             dots gs δus = lin_cost ls qN (vconst (dnx d) 0%R) δus.
+Proof.
+  intros Hwf Lg Lqr LqN ls qN Hls δus Lδ Hδ.
+  destruct (g_backward_eq F L lsolve d Dlb Dub DNlb DNub y μ storage Aof Bof Jcof JcN Hwf g qr wx wλ wc Lg Lqr LqN) as (wx' & wc' & E).
+  rewrite E.
+  assert (LqN' : length qN = dnx d).
+  { destruct Hwf as (_ & _ & _ & _ & WJN & _). unfold qN, qN_of. destruct (0 <? dncN d); [|exact LqN].
+    apply vadd_length_n; [exact LqN|]. apply mtv_length, WJN. }
+  pose proof (backward_gradient_is_derivative (dnx d) (dnu d) (dnc d) (dncN d) Dlb Dub DNlb DNub
+                (map (stage_of F d y μ storage Aof Bof Jcof) (seq 0 (dN d)))
+                (pf_eval_q_N F (seg (off_x d (dN d)) (dnx d) storage) (seg (off_h d (dN d)) (len_h d (dN d)) storage))
+                JcN (seg (off_c d (dN d)) (len_c d (dN d)) storage) (seg (dN d * dnc d) (dncN d) y) (seg (dN d * dnc d) (dncN d) μ)) as Hb.
+  cbv zeta in Hb. rewrite (map_map (stage_of F d y μ storage Aof Bof Jcof) (lin_of (dnx d) (dnc d) Dlb Dub)) in Hb.
+  specialize (Hb Hls LqN' δus). rewrite map_length, seq_length in Hb. specialize (Hb Lδ Hδ).
+  destruct (backward _ _ _ _ _ _ _ _ _ _ _ _ _ _) as [[[gs λ0] qrs] qN0]. cbn [fst] in *.
+  exists gs. split; [reflexivity | exact Hb].
+Qed.
+
+(* Riccati step = minimiser of the masked subproblem: what factor_masked + solve_masked (generated) leave in Δu_eq *)
+Theorem g_riccati_step_is_unique_minimiser (F : ocp_fns R) (L : lqr_fns R) lsolve d nx nu chol sts QN qN P gK e s c y t PA Δx :
+  all_ops L nx 0 sts -> (forall M, lf_Q L (length sts) M = madd M QN) -> lf_q L (length sts) = qN ->
+  Forall (wf2 nx nu) sts -> wfm nx nx QN -> selfadj nx QN -> length qN = nx ->
+  solves_all lsolve nx sts QN qN -> posdef_all lsolve nx sts QN qN ->
+  length sts <= length gK -> length sts <= length e -> length Δx = 2 * nx ->
+  let '(_, gK', e', _, _, _, _, _) := g_factor_masked F L lsolve d (length sts) nx nu chol P gK e s c y t PA in
+  exists Δus, fst (fst (g_solve_masked F L lsolve d (length sts) nx nu (concat (map (@sfix R) sts)) Δx gK' e')) = concat Δus /\
+    feasible nu sts Δus /\
+    forall Δus', feasible nu sts Δus' ->
+      (obj sts QN qN (vconst nx 0%R) Δus <= obj sts QN qN (vconst nx 0%R) Δus')%R /\
+      ((obj sts QN qN (vconst nx 0%R) Δus' <= obj sts QN qN (vconst nx 0%R) Δus)%R -> Δus' = Δus).
+Proof.
+  intros Hops HQN HqN Hw HQ HQs Hq Hsol Hpd LgK Le LΔx.
+  pose proof (g_riccati_step_eq F L lsolve d nx nu chol sts QN qN P gK e s c y t PA Δx Hops HQN HqN (wf2_wf nx nu sts Hw) HQ HQs Hq Hsol LgK Le LΔx) as E.
+  destruct (g_factor_masked F L lsolve d (length sts) nx nu chol P gK e s c y t PA) as [[[[[[[P' gK'] e'] s'] c'] y'] t'] PA'].
+  exists (riccati_step lsolve nx sts QN qN). split; [exact E|].
+  exact (riccati_step_unique_minimiser lsolve nx nu sts QN qN Hw HQ HQs Hq Hsol Hpd).
+Qed.
